@@ -196,8 +196,8 @@ with anG_list (l : stmts) (y : st) {struct l} : gres_l :=
 with anG_cases (cs : cases) (y : st) {struct cs} : st * list (option End) * list gent :=
   match cs with
   | CNil => (y, [], [])
-  | CCons cp _ _ cns r =>
-      let '(y1, r1, lg1) := visit_caseG cp cns (anG_list cns) y in
+  | CCons cp t _ cns r =>
+      let '(y1, r1, lg1) := visit_caseG cp cns (anG_list cns) (visit_test t y) in
       let '(y2, rs, lg2) := anG_cases r y1 in
       (y2, r1 :: rs, lg1 ++ lg2)
   end.
